@@ -10,6 +10,8 @@ mod forms;
 mod bls;
 #[cfg(feature = "ark")]
 mod r1cs;
+#[cfg(feature = "ark")]
+mod shape;
 
 fn main() {
     panic::set_hook(Box::new(|_| {}));
